@@ -958,6 +958,9 @@ def mon_C14(case, toks):
             live.add(e[2])
         elif e[0] == "done" and e[1] == fstage:
             live.discard(e[2])
+            if first_err_seen:
+                # "all futures still in flight are dropped unfinished" (C14_cancelled_work_never_completes: the acceptor accepts no completion after the first error)
+                return name + f": the closure future of item {e[2]} was driven to completion after an error had been observed (in-flight futures are to be dropped unfinished)"
             if e[3] is not None:
                 errs.append(e[3])
                 first_err_seen = True
